@@ -1,3 +1,50 @@
+//! C19 — the compressed text index answers every query as the uncompressed text would.
+//!
+//! Oracles: (1) a naive scan of the original text written here (ground truth) against
+//! `CompressedDocument` and `ReferenceDocument` for every `Document` query, (2) the same after
+//! re-parsing the serialised index, (3) every exported `BitVector` implementation against a plain
+//! `Vec<bool>`, (4) the wavelet trees against a plain symbol vector.
+
+mod bits;
+mod docs;
+mod textgen;
+mod wavelet;
+
+use vcore::Check;
+
 fn main() {
-    vcore::main_with(vec![], &[]);
+    let check = Check::new(
+        "C19",
+        "exploration",
+        "texts: empty, single symbol, all-equal, periodic (1..8), alphabet cycle, de Bruijn, Fibonacci / Thue-Morse words, runs, repeated blocks \
+         with point mutations, ascending / descending, uniform and skewed random, over alphabets of 1..4000 code points (from 0, ascii, spread over \
+         u32, around 2^20, top of unicode, top of u32 incl. u32::MAX); record boundaries: one record, one symbol per record, random, regular, \
+         adjacent pairs, last record of one symbol, and invalid lists; needles: substrings, across record boundaries, mutated, with absent \
+         symbols, empty, prefix, suffix, whole text, longer than the text, single symbols, symbol runs, doubled substrings. A document case is \
+         non-trivial when it has >= 2 records, a non-empty needle with >= 2 occurrences and a needle with none. Bit vectors up to 50 000 bits: \
+         constant, runs aligned to (and one off) 63/64/504/1449/16/128/256/4096, random with density 1/8..7/8, ones or zeros at generated gaps \
+         with counts on the sparse-tree and select-sample sizes; non-trivial when >= 127 bits with both values and > 16 set bits. Wavelet-tree \
+         cases are non-trivial with >= 2 distinct symbols and >= 64 symbols.",
+    )
+    .assume("Document::construct requires a non-empty text and record boundaries that start at 0, increase strictly and stay below the text length (check_record_boundaries); hence no empty records. Invalid lists and the empty text must be refused by both implementations.")
+    .assume("Any u32 is a legal symbol (0 and u32::MAX included); the end marker is internal to the index.")
+    .assume("The empty needle matches at every offset 0..len (common behaviour of CompressedDocument and ReferenceDocument; the docs are silent); a needle longer than the text matches nowhere.")
+    .assume("lookup is compared for text offsets 0..len only. For offsets > len ReferenceDocument answers the last record and CompressedDocument answers Err; the docs are silent, so only absence of panics is required there.")
+    .assume("retrieve / offset_of of a record number >= records() must be an error (the variants differ between implementations and are not compared).")
+    .assume("There is no pack method on a live document: 'serialise' is construct(), which writes the bytes; re-parsing is unpack() of those bytes, also from a copy at another address and alignment. Constructing twice must give identical bytes.")
+    .assume("BitVector semantics as documented and as the crate's own tests state them: access(x) is Some for x < len; rank(x) counts set bits below x for x in 0..=len and is None beyond; select(0) = Some(0), select(k) = one past the k-th set bit, None for k > count; select0 / rank0 likewise for unset bits.")
+    .assume("access_rank(len) is None for reference / rrr and Some((false, count)) for sparse / cf_rrr; both are accepted, a set bit or a wrong rank is not.")
+    .assume("sparse::BitVector::from_indices is driven with fan-outs 4, 5, 16, 17, 128, 255 (documented range 4..256) and indices strictly below len.")
+    .assume("WaveletTree: rank_q(q, x) for x in 0..=len, select_q(q, k) = one past the k-th q (Some(0) for k = 0), None beyond; symbols that do not occur may give None or zero.")
+    .pbt(docs::DocQueries)
+    .pbt(docs::DocSerialize)
+    .pbt(bits::BitVectors(bits::Impl::Rrr))
+    .pbt(bits::BitVectors(bits::Impl::CfRrr))
+    .pbt(bits::BitVectors(bits::Impl::Sparse))
+    .pbt(bits::BitVectors(bits::Impl::SparseIndices))
+    .pbt(bits::BitVectors(bits::Impl::Reference))
+    .pbt(wavelet::WaveletTrees(wavelet::Wt::Huffman))
+    .pbt(wavelet::WaveletTrees(wavelet::Wt::Fixed))
+    .pbt(wavelet::WaveletTrees(wavelet::Wt::Reference));
+    vcore::main_with(vec![check], &[]);
 }
